@@ -25,7 +25,11 @@ import c07
 import cacheproto
 import callgraph
 import evalnode as E
+import lengths
 import pipelines
+import q
+from norm import GET, SOME
+from norm import OK as norm_OK
 import semantics as sem
 import terms
 import wildcards
@@ -73,73 +77,166 @@ def pc_has(pc, pred):
     return False
 
 
+def place_name(m):
+    r = q.root_place(m)
+    if r[0] == "field":
+        return r[2]
+    if r[0] == "call":
+        return last(r[1])
+    if r[0] in ("loopvar", "mu"):
+        return str(r[2])
+    if r[0] == "param":
+        return "param"
+    return r[0]
+
+
+def origin(t, depth=0):
+    """Where a value comes from: the callee / field / map it was obtained from (independent of the enclosing function)."""
+    if not isinstance(t, tuple) or not t or depth > 20:
+        return "?"
+    g = q.as_get(t)
+    if g is not None:
+        return f"get({place_name(g[0])})"
+    if t[0] == "call" and last(t[1]) in ("get", "get_mut", "first", "last") and t[2]:
+        return f"{last(t[1])}({place_name(t[2][0])})"
+    if t[0] == "call":
+        return last(t[1])
+    if t[0] == "hof":
+        return t[1]
+    if t[0] in ("proj", "tproj", "mut"):
+        return origin(t[1], depth + 1)
+    if t[0] == "field":
+        return "." + t[2]
+    if t[0] == "ite":
+        a, b = origin(t[2], depth + 1), origin(t[3], depth + 1)
+        return a if a == b else "ite"
+    if t[0] in ("loopvar", "mu"):
+        return str(t[2])
+    return t[0]
+
+
+def is_map_node(n):
+    ty = str((n or {}).get("ty", ""))
+    return "HashMap<" in ty or "BTreeMap<" in ty
+
+
 def describe(st):
-    """(kind, what) of a panic-capable site, or None."""
+    """(kind, what) of a panic-capable site, or None.  `what` names the operation and where its operand comes from."""
     if st.kind == "mcall" and st.name in ("unwrap", "expect", "unwrap_err", "expect_err"):
-        recv = st.args[0]
-        what = st.name
-        if recv[0] == "call":
-            what = last(recv[1])
-            if what in ("get", "get_mut") and recv[2]:
-                m = recv[2][0]
-                nm = m[2] if m[0] == "field" else (m[2] if m[0] == "mu" else last(m[1]) if m[0] == "call" else "")
-                if nm in ("domain_raw_sets", "reverse_renaming") or (m[0] == "call" and last(m[1]) == "extra_state_variables"):
-                    what = f"get({nm if m[0] != 'call' else last(m[1])})"
-        if st.name.startswith("expect"):
-            return "expect", "expect"
-        return "unwrap", what
+        return "unwrap", origin(st.args[0])
     if st.kind == "call" and isinstance(st.callee, str) and ("panicking" in st.callee or last(st.callee) in ("unreachable", "panic", "panic_fmt", "assert_failed")):
-        return "panic", "unreachable" if "unreachable" in pt(st.args[0] if st.args else ()) else "panic"
+        return "panic", panic_what(st) if "unreachable" in pt(st.args[0] if st.args else ()) else "panic"
     if st.kind == "index":
-        i = st.args[1]
-        return "index", "[0]" if i == ("lit", 0) else "[..]"
+        base, i = st.args
+        if is_map_node(st.argnodes[0] if st.argnodes else None):
+            return "index", f"map:{place_name(base)}"
+        return "index", f"{origin(base)}[0]" if i == ("lit", 0) else f"{origin(base)}[..]"
     if st.kind == "arith" and st.name in ("-", "/", "%") and ("usize" in str(st.ty) or "u32" in str(st.ty) or "u16" in str(st.ty)):
-        return "arith", st.name
+        return "arith", f"{origin(st.args[0])}{st.name}{pt(st.args[1]) if st.args[1][0] == 'lit' else '_'}"
     if st.kind in ("call", "mcall") and isinstance(st.callee, str) and last(st.callee) in PANIC_LIB:
         return "lib", last(st.callee)
     return None
 
 
+KEY_PRESERVING = {"get_mut", "insert", "entry", "extend", "push", "or_insert", "or_insert_with", "or_default", "iter_mut", "values_mut", "get", "iter", "len",
+                  "contains_key", "and_modify"}
+
+
+def peel(t):
+    """(root place, effects) of a place term with its in-place updates removed."""
+    effs = []
+    n = 0
+    while isinstance(t, tuple) and t and n < 60:
+        n += 1
+        if t[0] == "mut":
+            effs.append(t[2])
+            t = t[1]
+        elif t[0] == "field":
+            r, e = peel(t[1])
+            return ("field", r, t[2]), effs + e
+        else:
+            break
+    return t, effs
+
+
+def key_preserving(e):
+    if e[0] == "call":
+        return last(e[1]) in KEY_PRESERVING
+    if e[0] == "assign":
+        v = e[2]
+        return v[0] == "bin" and q.as_at(v[2]) is not None          # `*m.get_mut(k).unwrap() op= ..` updates an entry in place
+    return False
+
+
+def same_map(a, b):
+    """b is the map a, possibly after in-place updates that remove no key."""
+    ra, ea = peel(a)
+    rb, eb = peel(b)
+    if ra != rb:
+        return False
+    extra = eb[:len(eb) - len(ea)] if len(eb) >= len(ea) and (not ea or eb[len(eb) - len(ea):] == ea) else None
+    return extra is not None and all(key_preserving(e) for e in extra)
+
+
+def known_some(pc, x):
+    """The path condition contains the test `x is Some / Ok` (for map look-ups: on the same map and key)."""
+    gx = q.as_get(x)
+    for t, pol in q.conds(pc):
+        if not pol:
+            continue
+        y = q.is_some_test(t)
+        if y is None:
+            y = q.is_ok_test(t)
+        if y is None:
+            continue
+        if y == x:
+            return True
+        gy = q.as_get(y)
+        if gx is not None and gy is not None and gx[1] == gy[1] and same_map(gy[0], gx[0]):
+            return True
+    return False
+
+
+def pc_true(pc, pred):
+    return any(pol and pred(t) for t, pol in q.conds(pc))
+
+
 def g1_discharged(st, kind, what, fn_summ):
     pc = st.pc
-    if kind in ("unwrap", "expect"):
+    if kind == "unwrap":
         recv = st.args[0]
-        if recv[0] == "call" and last(recv[1]) in ("get", "get_mut") and len(recv[2]) == 2:
-            m, k = recv[2]
-            if pc_has(pc, lambda t, pol: pol and t[0] == "call" and last(t[1]) == "contains_key" and t[2] == (m, k)):
-                return "contains_key(map, key) dominates map.get(key).unwrap()"
-            # same map before an in-place update of another entry
-            if pc_has(pc, lambda t, pol: pol and t[0] == "call" and last(t[1]) == "contains_key" and t[2][1] == k and same_map(t[2][0], m)):
-                return "contains_key(map, key) dominates map.get(key).unwrap()"
-        if pc_has(pc, lambda t, pol: pol and t[0] == "call" and last(t[1]) == "is_some" and t[2] == (recv,)):
-            return "is_some(x) dominates x.unwrap()"
-        if pc_has(pc, lambda t, pol: pol and t[0] == "matches" and t[1] == recv and "Some" in repr(t[2])):
-            return "matched Some(_)"
+        if recv[0] == "ctor" and last(recv[1]) in ("Some", "Ok"):
+            return "the value is Some(..) / Ok(..) by construction"
+        if known_some(pc, recv):
+            return "a test `is Some / contains_key` on the same value dominates the unwrap"
         return None
     if kind == "index":
         base, idx = st.args
-        if str(st.callee).endswith("Index::index") and "HashMap" in str(st.ty) + pt(base) or (base[0] in ("field", "loopvar", "mut") and idx[0] == "tuple"):
-            if pc_has(pc, lambda t, pol: pol and t[0] == "call" and last(t[1]) == "contains_key" and t[2][1] == idx and same_map(t[2][0], base)):
+        if what.startswith("map:"):
+            if known_some(pc, ("call", GET, (base, idx))):
                 return "contains_key(map, key) dominates map[key]"
+            return None
         pos = position_index(idx)
-        if pos is not None and pc_has(pc, lambda t, pol: pol and t[0] == "matches" and t[1] == pos[0] and "Some" in repr(t[2])):
+        if pos is not None and known_some(pc, pos[0]):
             # tokens[i], tokens[..i], tokens[i+1..]: i is a valid position of the same slice
             if slice_of(pos[0]) == base:
                 if pos[1] == "i-1":
-                    i = ("proj", pos[0], "std::prelude::v1::Some", 0)
-                    if pc_has(pc, lambda t, pol: pol and t == ("bin", ">", i, ("lit", 0))):
+                    i = ("proj", pos[0], SOME, 0)
+                    if positive(pc, i):
                         return "i > 0 dominates tokens[i - 1]"
                     return None
                 return "position(..) = Some(i) dominates tokens[i] / tokens[..i] / tokens[i+1..]"
         if idx == ("lit", 0):
-            if pc_has(pc, lambda t, pol: pol and t[0] == "bin" and t[1] == "==" and t[3] == ("lit", 1) and t[2][0] == "call" and last(t[2][1]) == "len" and t[2][2] == (base,)):
+            ln = lambda t: t[0] == "call" and last(t[1]) == "len" and t[2] == (base,)       # noqa: E731
+            if pc_true(pc, lambda t: t[0] == "bin" and t[1] == "==" and ((ln(t[2]) and t[3] == ("lit", 1)) or (ln(t[3]) and t[2] == ("lit", 1)))):
                 return "len == 1 dominates tokens[0]"
+            if any((not pol) and t[0] == "call" and last(t[1]) == "is_empty" and t[2] == (base,) for t, pol in q.conds(pc)):
+                return "!is_empty dominates tokens[0]"
         return None
     if kind == "arith":
         a, b = st.args
-        if what == "-" and b == ("lit", 1):
-            if pc_has(pc, lambda t, pol: pol and t == ("bin", ">", a, ("lit", 0))):
-                return "i > 0 dominates i - 1"
+        if st.name == "-" and b == ("lit", 1) and positive(pc, a):
+            return "i > 0 dominates i - 1"
         return None
     if kind == "panic":
         # `match &tokens[i] { P(..) => .., _ => unreachable!() }` with i the first position satisfying P
@@ -160,6 +257,19 @@ def g1_discharged(st, kind, what, fn_summ):
     return None
 
 
+def positive(pc, i):
+    for t, pol in q.conds(pc):
+        if t[0] != "bin":
+            continue
+        if pol and ((t[1] == ">" and t[2] == i and t[3] == ("lit", 0)) or (t[1] == "<" and t[3] == i and t[2] == ("lit", 0))
+                    or (t[1] == ">=" and t[2] == i and t[3] == ("lit", 1)) or (t[1] == "!=" and ("lit", 0) in (t[2], t[3]) and i in (t[2], t[3]))):
+            return True
+        if (not pol) and ((t[1] == "==" and ("lit", 0) in (t[2], t[3]) and i in (t[2], t[3])) or (t[1] == "<=" and t[2] == i and t[3] == ("lit", 0))
+                          or (t[1] == "<" and t[2] == i and t[3] == ("lit", 1))):
+            return True
+    return False
+
+
 def generic_class(d):
     if d[0] == "var" and str(d[1]).endswith("HctlToken::Binary") and d[2] and d[2][0][0] == "wild":
         return {"And", "Or", "Xor", "Imp", "Iff", "EU", "AU", "EW", "AW"}
@@ -172,20 +282,6 @@ def generic_cover(cls, prior):
         if g and cls <= g:
             return True
     return False
-
-
-def same_map(a, b):
-    """b is map a, possibly after in-place updates of a (mut wrappers) or through the same root field."""
-    def root(t):
-        while t[0] == "mut":
-            t = t[1]
-        return t
-    ra, rb = root(a), root(b)
-    if ra == rb:
-        return True
-    fa = ra[2] if ra[0] == "field" else None
-    fb = rb[2] if rb[0] == "field" else None
-    return fa is not None and fa == fb
 
 
 def position_index(idx):
@@ -221,6 +317,115 @@ def slice_of(pos):
     return None
 
 
+
+def panic_what(st):
+    """`unreachable:<enum>::<variant reached>` from the innermost pattern test on the path to the panic."""
+    def enum_of(d):
+        if d[0] == "var" and isinstance(d[1], str) and "::" in d[1]:
+            return d[1].split("::")[-2], d[1].split("::")[-1]
+        if d[0] == "or" and d[1]:
+            return enum_of(d[1][0])
+        return None
+    for c in reversed(st.pc):
+        if c[0] == "match":
+            prior = c[5] if len(c) > 5 else ()
+            for x in (c[2],) + tuple(prior):
+                e = enum_of(x)
+                if e:
+                    return f"unreachable:{e[0]}::{e[1] if x is c[2] else '_'}"
+        if c[0] == "if":
+            for y in [c[1]] + list(subterms(c[1])):
+                if y[0] == "matches":
+                    e = enum_of(y[2])
+                    if e:
+                        return f"unreachable:{e[0]}::{e[1] if c[2] else '_'}"
+    return "unreachable"
+
+
+def batch_of_one(st, kind, lens):
+    """xs[n] where the length of xs is known: the result of length-preserving functions applied to vec![..] literals."""
+    if kind != "index" or st.args[1][0] != "lit" or not isinstance(st.args[1][1], terms.Int):
+        return None
+    l = lens.lenof(st.args[0])
+    if l[0] == "lit" and int(st.args[1][1]) < int(l[1]):
+        return f"the indexed collection has exactly {l[1]} element(s): every function on the way returns one result per input"
+    return None
+
+
+def discharged_in_callers(prog, eng, f, st, kind, what, lens, reach):
+    """A private helper's site is guarded in every caller: the arguments of each call are substituted for the parameters and
+    the caller's path condition is added."""
+    if f.vis == "pub" or "pub" in str(f.vis):
+        return None
+    pn = f.param_names()
+    calls = []
+    for qn in reach:
+        g = prog.fns[qn]
+        if g.crate != f.crate or g is f:
+            continue
+        for cs in eng.summary(g).all_sites():
+            if cs.kind == "call" and isinstance(cs.callee, str) and prog.resolve_local(g.crate, cs.callee) is f:
+                calls.append(cs)
+    if not calls:
+        return None
+    for cs in calls:
+        if len(cs.args) != len(pn):
+            return None
+        mapping = dict(zip(pn, cs.args))
+        x = terms.Site(node=st.node, fn=st.fn, kind=st.kind, callee=st.callee, name=st.name, argnodes=st.argnodes, ty=st.ty, ordinal=st.ordinal,
+                       args=[terms.subst(a, mapping) if isinstance(a, tuple) else a for a in st.args],
+                       pc=tuple(cs.pc) + tuple((c[0], terms.subst(c[1], mapping)) + tuple(c[2:]) if c[0] in ("if", "match") else c for c in st.pc))
+        if not (g1_discharged(x, kind, what, None) or batch_of_one(x, kind, lens)):
+            return None
+    return f"guarded at each of the {len(calls)} call site(s) of this private helper"
+
+
+def all_shapes():
+    c, l, r = ("param", "#c"), ("param", "#l"), ("param", "#r")
+    out = [E.shape_atom("Var", ("lit", "v")), E.shape_atom("Prop", ("lit", "p")), E.shape_atom("True"), E.shape_atom("False"),
+           E.shape_atom("WildCardProp", ("lit", "w")), E.shape_unary("Not", c), E.shape_binary("And", l, r)]
+    for op in ("Bind", "Exists", "Forall", "Jump"):
+        out.append(E.shape_hybrid(op, ("lit", "z"), None, c))
+        out.append(E.shape_hybrid(op, ("lit", "z"), ("lit", "d"), c))
+    return out
+
+
+def shape_summaries(prog, eng, f):
+    """Specialisations of f for every shape of its tree-node parameter (empty if it has none)."""
+    idx = [i for i, t in enumerate(f.param_tys) if t.replace("&", "").strip().endswith("HctlTreeNode")]
+    if len(idx) != 1:
+        return []
+    pn = f.param_names()
+    out = []
+    for sh in all_shapes():
+        try:
+            s = eng.specialise(f, {pn[idx[0]]: E.node_term(sh)})
+        except Exception:
+            return []
+        if s is None:
+            return []
+        out.append(s)
+    return out
+
+
+def discharged_per_shape(st, per_shape):
+    if not per_shape:
+        return None
+    seen = 0
+    for s in per_shape:
+        for x in s.sites:
+            if x.node is st.node or (x.node and st.node and x.node.get("id") == st.node.get("id") and x.fn is st.fn):
+                d = describe(x)
+                if d is None:
+                    return None
+                seen += 1
+                if not g1_discharged(x, d[0], d[1], s):
+                    return None
+    if seen:
+        return f"for every shape of the tree node ({seen} reachable cases) the site is guarded or its operand is Some(..) by construction"
+    return None
+
+
 def run(prog, rep):
     rep.explanation = __doc__
     rep.assumptions = ["L3", "L7 transfer_from returns None iff the BDD depends on a variable without a namesake in the target context",
@@ -235,16 +440,20 @@ def run(prog, rep):
     rep.check(len(roots) == 17, "C14-R2", "entry-points/count", "", f"{len(roots)} string entry points", f"{len(roots)} string entry points found, 17 expected")
     reach = callgraph.reachable(prog, edges, [f.qual for f in roots])
     with open(TABLE) as fh:
-        table = {e["key"]: e for e in json.load(fh)["entries"]}
+        table = {}
+        for e in json.load(fh)["entries"]:
+            for k in e["keys"]:
+                table[k] = e
     prereq = verify_prerequisites(prog, rep, eng)
-    used = {}
+    lens = lengths.Lengths(prog, eng)
     n_sites = 0
-    for q in sorted(reach):
-        f = prog.fns[q]
+    for qn in sorted(reach):
+        f = prog.fns[qn]
         if f.crate != "biodivine_hctl_model_checker":
             continue
-        rep.functions.add(q)
+        rep.functions.add(qn)
         s = eng.summary(f)
+        per_shape = None
         for st in s.sites:
             d = describe(st)
             if d is None:
@@ -252,29 +461,35 @@ def run(prog, rep):
             kind, what = d
             n_sites += 1
             rep.call_sites += 1
-            key = f"{f.path}|{kind}|{what}"
-            g1 = g1_discharged(st, kind, what, s)
+            stem = os.path.basename(f.file).rsplit(".", 1)[0]
+            key = f"{stem}|{kind}|{what}"
+            ikey = f"{f.path}/{kind}:{what}@{st.ordinal}"
+            g1 = g1_discharged(st, kind, what, s) or batch_of_one(st, kind, lens)
+            if not g1:
+                # case split on the shape of the tree node the function works on
+                if per_shape is None:
+                    per_shape = shape_summaries(prog, eng, f)
+                g1 = discharged_per_shape(st, per_shape)
+            if not g1:
+                g1 = discharged_in_callers(prog, eng, f, st, kind, what, lens, reach)
             if g1:
-                rep.ok("C14-R1", f"{f.path}/{kind}:{what}@{st.ordinal}", st.where(), "G1: " + g1)
+                rep.ok("C14-R1", ikey, st.where(), "G1: " + g1)
                 continue
             e = table.get(key)
             if e is not None:
-                used[key] = used.get(key, 0) + 1
                 missing = [r for r in e.get("requires", []) if not prereq.get(r, False)]
                 if missing:
-                    rep.violation("C14-R1", f"{f.path}/{kind}:{what}@{st.ordinal}", st.where(),
+                    rep.violation("C14-R1", ikey, st.where(),
                                   f"panic site relies on `{e['reason']}`, but its prerequisite(s) {missing} no longer hold: the {kind} can fire on user input")
                 else:
-                    rep.ok("C14-R1", f"{f.path}/{kind}:{what}@{st.ordinal}", st.where(), f"{e['class']}: {e['reason']}")
+                    rep.ok("C14-R1", ikey, st.where(), f"{e['class']}: {e['reason']}")
                 continue
-            rep.violation("C14-R1", f"{f.path}/{kind}:{what}@{st.ordinal}", st.where(),
+            rep.violation("C14-R1", ikey, st.where(),
                           f"undischarged panic site reachable from the string entry points: `{kind} {what}` on {sem.short(st.args[0], 100) if st.args else ''} "
-                          f"under [{ppc(st.pc)[-200:]}] has no dominating guard and no reviewed discharge")
-    for key, e in table.items():
-        n = used.get(key, 0)
-        rep.check(n == e["count"], "C14-R1", f"table/{key}", "", f"table line matches {n} site(s)",
-                  f"table line `{key}` matches {n} sites, {e['count']} expected: the reviewed discharge no longer corresponds to the code")
-    rep.floor("C14-R1", 70)
+                          f"under [{ppc(st.pc)[-200:]}] has no dominating guard and no reviewed discharge (key {key})")
+    rep.check(len(rep.functions) >= 60, "C14-R1", "coverage/functions", "", f"{len(rep.functions)} reachable functions analysed",
+              f"only {len(rep.functions)} functions are reachable from the string entry points (at least 60 expected): the call graph is incomplete")
+    rep.floor("C14-R1", 40)
     check_validator_placement(prog, rep, eng, roots)
     rep.floor("C14-R2", 23)
     # R3: the error paths (shared rules)
@@ -342,37 +557,6 @@ def verify_prerequisites(prog, rep, eng):
     sub6 = R("p6")
     c05.check_tokenizer(prog, sub6)
     out["plain-mode-no-domains"] = all(i.verdict == "ok" for i in sub6.instances if i.rule == "C05-R3") and sum(1 for i in sub6.instances if i.rule == "C05-R3") >= 12
-    # one result per input: the batch drivers push exactly one result per iterated tree and parse_and_validate one tree per formula
-    ok = True
-    for path in ("model_checking::_model_check_multiple_trees_dirty", "model_checking::_model_check_multiple_extended_formulae_dirty",
-                 "model_checking::parse_and_validate", "model_checking::parse_and_validate_extended"):
-        f = prog.lib_fn(path)
-        if f is None:
-            ok = False
-            continue
-        s = eng.summary(f)
-        fors = [x for x in s.sites if x.kind == "for"]
-        pushes = [x for x in s.sites if x.kind == "mcall" and x.name == "push"]
-        if len(fors) != 1 or len(pushes) != 1 or fors[0].node["id"] not in pushes[0].loops or len(pushes[0].loops) != 1:
-            ok = False
-            continue
-        # no `continue` / filter that skips an element without pushing; early exits are `return Err` only
-        if any(x.kind == "continue" for x in s.sites):
-            ok = False
-        if any(c[0] == "if" for c in pushes[0].pc if not (c[0] == "if" and not c[2])):
-            # the push may only be preceded by diverging error checks (conditions known false)
-            if any(c[0] == "if" and c[2] for c in pushes[0].pc):
-                ok = False
-    # the sanitising wrappers map one-to-one
-    for path in ("model_checking::_model_check_multiple_trees", "model_checking::_model_check_multiple_extended_formulae"):
-        f = prog.lib_fn(path)
-        if f is None:
-            ok = False
-            continue
-        s = eng.summary(f)
-        if not any(x.kind == "mcall" and x.name == "map" for x in s.sites) or any(x.kind == "mcall" and x.name in ("filter", "filter_map", "skip", "take", "flat_map") for x in s.sites):
-            ok = False
-    out["one-result-per-input"] = ok
     # closed results: C03-R3 (projection of own variables, cache admission)
     sub7 = R("p7")
     if en.ok():
@@ -387,40 +571,85 @@ def verify_prerequisites(prog, rep, eng):
     return out
 
 
+def strip_clone(t):
+    while isinstance(t, tuple) and t and t[0] == "call" and isinstance(t[1], str) and last(t[1]) in ("clone", "to_owned", "borrow", "as_ref", "deref") and len(t[2]) == 1:
+        t = t[2][0]
+    return t
+
+
+def escapes(s, tree):
+    """(where, value, conditions) for every place where `tree` leaves the function: stored into a collection or returned."""
+    out = []
+    has = lambda t: t == tree or any(y == tree for y in subterms(t))          # noqa: E731
+    for x in s.all_sites():
+        if x.kind == "mcall" and x.name in ("push", "push_back", "insert", "extend", "push_front") and any(has(a) for a in x.args[1:]):
+            out.append((x.where(), x.args[1], q.conds(x.pc)))
+    def direct(t):
+        """tree occurs in t outside of values accumulated by loops / iterator pipelines (those are covered at their own sites)."""
+        if t == tree:
+            return True
+        if not isinstance(t, tuple) or not t or t[0] in ("collect", "collectmap", "mu", "hof"):
+            return False
+        return any(direct(x) for x in t if isinstance(x, tuple))
+    for r in s.returns:
+        if r[5] != "try" and direct(r[0]):
+            for conds, leaf in c07.leaves(r[0]):
+                if direct(leaf):
+                    out.append((f"{s.fn.file}:{r[4]['sp'][0] if r[4] and r[4].get('sp') else s.fn.line}", leaf, q.conds(r[1]) + list(conds)))
+    # closures of iterator pipelines: map(|f| { ..; Ok(tree) }) - the conditions are the ite conditions of the body
+    pushed = [x.args[1] for x in s.all_sites() if x.kind == "mcall" and x.name in ("push", "push_back", "insert", "extend", "push_front") and len(x.args) > 1]
+    for y in [s.ret] + list(subterms(s.ret)) if s.ret else []:
+        if y[0] in ("hof", "collect") and has(y):
+            body = y[3] if y[0] == "hof" else y[2]
+            if y[0] == "collect" and body in pushed:
+                continue              # the closed form of a push loop: its pushes are listed above
+            for conds, leaf in c07.leaves(body):
+                if direct(leaf) and not (leaf[0] == "ctor" and last(leaf[1]) == "Err"):
+                    out.append((f"{s.fn.file}:{s.fn.line}", leaf, list(conds)))
+    return out
+
+
 def check_validator_placement(prog, rep, eng, roots):
+    veng = terms.Engine(prog, inline=True, hooks=E.Hooks(["model_checking::"]))
     for name, extended in (("parse_and_validate", False), ("parse_and_validate_extended", True)):
         f = prog.lib_fn("model_checking::" + name)
         if f is None:
             rep.unresolved("C14-R2", name, "", "function not found")
             continue
         rep.functions.add(f.qual)
-        s = eng.summary(f)
+        s = veng.summary(f)
         pn = f.param_names()
         graph = ("param", pn[1])
         where = f"{f.file}:{f.line}"
-        pushes = [x for x in s.sites if x.kind == "mcall" and x.name == "push"]
-        parse = [x for x in s.sites if x.kind == "call" and x.is_call_to("parse_and_minimize_extended_formula" if extended else "parse_and_minimize_hctl_formula")]
-        good = len(pushes) == 1 and len(parse) == 1
-        if not good:
-            rep.unresolved("C14-R2", f"{name}/shape", where, f"{len(pushes)} pushes, {len(parse)} parser calls")
+        parse = [x for x in s.all_sites() if x.kind == "call" and x.is_call_to("parse_and_minimize_extended_formula" if extended else "parse_and_minimize_hctl_formula")]
+        if len(parse) != 1:
+            rep.unresolved("C14-R2", f"{name}/shape", where, f"{len(parse)} parser calls")
             continue
-        tree = pushes[0].args[1]
-        rep.check(tree == ("proj", parse[0].term, "std::result::Result::Ok", 0) and parse[0].args[0] == ("call", parse[0].args[0][1], (graph,)) if parse[0].args[0][0] == "call" else False,
-                  "C14-R2", f"{name}/parsed", pushes[0].where(), "pushed tree = `?` of the parser + preprocessing on the graph's symbolic context",
-                  f"pushed tree is {sem.short(tree, 100)}")
-        # support check for that tree, Err otherwise
-        sup = [x for x in s.sites if x.kind == "call" and x.is_call_to("check_hctl_var_support") and x.args[0] == graph and x.args[1] == tree]
-        guarded = bool(sup) and any(c[0] == "if" and not c[2] and c[1] == ("not", sup[0].term) for c in pushes[0].pc)
-        err = any(r[5] == "return" and r[0][0] == "ctor" and str(r[0][1]).endswith("Err") and any(c[0] == "if" and c[2] and sup and c[1] == ("not", sup[0].term) for c in r[1])
-                  for r in s.returns)
-        rep.check(guarded and err, "C14-R2", f"{name}/support", pushes[0].where(), "each tree is pushed only if the graph supports its variables; Err otherwise",
-                  "a tree can be pushed without check_hctl_var_support(graph, that tree) having returned true (evaluation would panic in mk_var_by_name / get(index).unwrap())")
+        ctx_ok = parse[0].args[0][0] == "call" and last(parse[0].args[0][1]) == "symbolic_context" and parse[0].args[0][2] == (graph,)
+        tree = ("proj", parse[0].term, norm_OK, 0)
+        for x in s.all_sites():
+            for a_ in x.args or []:
+                if isinstance(a_, tuple):
+                    for y in [a_] + list(subterms(a_)):
+                        if y[0] == "proj" and y[1] == parse[0].term and last(y[2]) == "Ok" and y[3] == 0:
+                            tree = y
+        esc = escapes(s, tree)
+        # trees that escape without being the parsed tree itself (wrapped into something else) are not understood
+        plain = [e for e in esc if strip_clone(e[1]) == tree or (e[1][0] == "ctor" and last(e[1][1]) == "Ok" and strip_clone(e[1][2][0]) == tree)
+                 or strip_clone(e[1]) != e[1]]
+        rep.check(bool(esc) and ctx_ok, "C14-R2", f"{name}/parsed", where, "the returned trees are `?` of the parser + preprocessing on the graph's symbolic context",
+                  "no parsed tree reaches the result" if not esc else "the parser is not given the symbolic context of the graph the trees are validated against")
+        sup = lambda t: t[0] == "call" and isinstance(t[1], str) and t[1].endswith("check_hctl_var_support") and len(t[2]) == 2 and t[2][0] == graph \
+            and strip_clone(t[2][1]) == tree          # noqa: E731
+        val = lambda t: q.is_ok_test(t) is not None and q.is_ok_test(t)[0] == "call" and q.is_ok_test(t)[1].endswith("validate_and_divide_wild_cards") \
+            and strip_clone(q.is_ok_test(t)[2][0]) == tree and q.is_ok_test(t)[2][1] == ("param", pn[2])          # noqa: E731
+        good_sup = bool(esc) and all(any(pol and sup(t) for t, pol in conds) for _, _, conds in esc)
+        rep.check(good_sup, "C14-R2", f"{name}/support", where, "each tree reaches the result only if the graph supports its variables",
+                  "a tree can reach the result without check_hctl_var_support(graph, that tree) having returned true (evaluation would panic in mk_var_by_name / get(index).unwrap())")
         if extended:
-            val = [x for x in s.sites if x.kind == "call" and x.is_call_to("validate_and_divide_wild_cards") and x.args[0] == tree]
-            tried = bool(val) and any(r[5] == "try" and r[0] == val[0].term for r in s.returns)
-            before = bool(val) and val[0].line() <= pushes[0].line()
-            rep.check(tried and before, "C14-R2", f"{name}/context", pushes[0].where(), "each tree is validated against the context, errors propagated",
-                      "a tree can be pushed without validate_and_divide_wild_cards(that tree, context) having succeeded")
+            good_val = bool(esc) and all(any(pol and val(t) for t, pol in conds) for _, _, conds in esc)
+            rep.check(good_val, "C14-R2", f"{name}/context", where, "each tree is validated against the context before it reaches the result, errors propagated",
+                      "a tree can reach the result without validate_and_divide_wild_cards(that tree, context) having succeeded")
     deng = pipelines.driver_engine(prog, extra_opaque=["model_checking::parse_and_validate", "model_checking::parse_and_validate_extended"])
     for ep in roots:
         sm = deng.summary(ep)
